@@ -505,6 +505,18 @@ example : (match (protect toyKeys [0x41, 0x12, 0x34] 0x1234 [9, 8]).map (fun p =
     | _ => false) = true := by decide
 example : protect toyKeys [0x41, 0x12, 0x34] 0x1234 [9] = none := by decide
 
+/-- the ideal-AEAD hypothesis of `only_sealed_opens` / `tamper_rejected` is satisfiable: an AEAD that opens
+    exactly the one thing it sealed -/
+def oneShot (n0 a0 m0 c0 : Bytes) : AEAD :=
+  { enc := fun _ _ _ => c0, dec := fun n a c => if n = n0 ∧ a = a0 ∧ c = c0 then some m0 else none }
+example (n0 a0 m0 c0 : Bytes) : ∀ n a c m, (oneShot n0 a0 m0 c0).dec n a c = some m →
+    (n = n0 ∧ a = a0 ∧ m = m0) ∧ c = (oneShot n0 a0 m0 c0).enc n a m := by
+  intro n a c m h
+  simp only [oneShot] at h ⊢
+  split at h
+  · rename_i hc; simp only [Option.some.injEq] at h; exact ⟨⟨hc.1, hc.2.1, h.symm⟩, hc.2.2⟩
+  · cases h
+
 end Protection
 
 /-! ## 6. the constants of the key derivations are the RFCs' (regenerated facts vs. RFC 9001 / RFC 9369)
